@@ -204,6 +204,10 @@ def correspond(ctx, corr, model_ok):
         corr.oracle_failures.extend(lease_oracle(action))
         corr.evaluations += 1
         corr.count('lease scenario')
+    corr.oracle_failures.extend(gated_oracle())
+    corr.count('blocked writer: control frame queued behind a partly written fragmented frame', 24)
+    corr.oracle_failures.extend(collector_oracle())
+    corr.count('AwaitableRSocket collector at a credit-window boundary', 48)
     if model_ok:
         E.trace_corr(corr, runs, KEEP, KEYS, 'C08 emitted frames vs model/Endpoint.v')
     corr.rule = ('legal random histories of 4..20 actions (half of the local cancels race an incoming frame); every queued '
@@ -224,6 +228,8 @@ def search(ctx, budget):
             found.extend(wire_oracle(sc))
         for case in setup_cases(ctx, 40):
             found.extend(setup_oracle(case))
+        found.extend(gated_oracle())
+        found.extend(collector_oracle())
     return found
 
 
@@ -233,5 +239,154 @@ def replay(obj):
         return bool(setup_oracle(tuple(case['setup_case'])))
     if 'lease_case' in case:
         return bool(lease_oracle(case['lease_case']))
+    if 'gated_case' in case:
+        return bool(gated_oracle())
+    if 'collector_case' in case:
+        return bool(collector_oracle())
     runs, crashed = E.run_all([case['scenario']])
     return bool(crashed) or any(oracle(sc) or wire_oracle(sc) for sc in runs)
+
+
+# ---------------------------------------------------------------------------------------------
+# a blocked writer: control frames queued while a fragmented frame of the same stream is partly written
+
+def train_oracle(wire, what, case):
+    """wire: [(type, sid, follows)] as written.  Per stream: a fragment train is not interrupted, nothing follows a
+    CANCEL / ERROR the endpoint wrote."""
+    out = []
+    open_train, ended = {}, {}
+    for n, (t, sid, follows) in enumerate(wire):
+        if not sid:
+            continue
+        if sid in ended:
+            out.append({'what': what + ':frame-after-own-%s' % ended[sid], 'gated_case': case, 'n': n, 'frame': t, 'wire': repr(wire)[:300]})
+            break
+        if open_train.get(sid) and t != 'Payload':
+            out.append({'what': what + ':fragment-train-interrupted-by-%s' % t, 'gated_case': case, 'n': n, 'wire': repr(wire)[:300]})
+            break
+        open_train[sid] = follows if t in ('Payload', 'RequestResponse', 'RequestStream', 'RequestChannel', 'RequestFnf') else False
+        if t in ('Cancel', 'Error'):
+            ended[sid] = t
+    return out
+
+
+def run_gated_responder_error(permits, lenreq, seed):
+    """server with fragment size 64 and a blocked writer: its publisher emits one 230-byte element and then fails"""
+    import random as _r
+    from harness import net as NET
+    from rsocket.payload import Payload
+    from harness.props import c10
+    rng = _r.Random(seed)
+    net = NET.Net(lenreq, 64, 64)
+    try:
+        sub = NET.RecSub(None, None)
+        net.act(lambda: net.ep['client'].request_stream(Payload(b'req')).subscribe(sub))
+        net.flush(rng)
+        pub = net.apps['server'].pubs.get(b'req')
+        t = net.t['server']
+        t.gated = True
+        net.act(lambda: pub.subscriber.on_next(Payload(b'E' * 230), False))
+        for _ in range(permits):
+            t.permit(1)
+            net.loop.settle()
+        net.act(lambda: pub.subscriber.on_error(RuntimeError('producer failed')))
+        t.gated = False
+        for _ in range(40):
+            t.permit(1)
+            net.loop.settle()
+            net.flush(rng)
+        return [c10.FR_t(b) for b in t.wire]
+    finally:
+        net.finish()
+
+
+def gated_oracle():
+    from harness.props import c10
+    out = []
+    n = 0
+    for kind in ('rs', 'rr'):
+        for requester in ('client', 'server'):
+            for permits in (0, 1, 2, 4):
+                n += 1
+                case = [kind, requester, permits, n % 2 == 0, n]
+                r = c10.run_partial_request_cancel(*case)
+                out.extend(train_oracle(r['wire'], 'requester-cancel', case))
+    for permits in (0, 1, 2, 4):
+        for lenreq in (True, False):
+            n += 1
+            out.extend(train_oracle(run_gated_responder_error(permits, lenreq, n), 'responder-error', ['err', permits, lenreq, n]))
+    return out
+
+
+# ---- the library's own collecting subscriber (AwaitableRSocket): credit renewal at the end of a stream
+def run_collector(kind, n_elems, limit_rate, flag_last, lenreq, seed):
+    import random as _r
+    import asyncio as _a
+    from harness import net as NET, frames as FR2
+    from rsocket.payload import Payload
+    from rsocket.awaitable.awaitable_rsocket import AwaitableRSocket
+    rng = _r.Random(seed)
+    net = NET.Net(lenreq, None, None)
+    try:
+        ep = net.ep['client']
+        events = []
+        orig_send = ep.send_frame
+
+        def send_frame(frame):
+            events.append(('out', FR2.describe(frame)))
+            return orig_send(frame)
+        ep.send_frame = send_frame
+        net.dispatched['client'].on_append = lambda fr: events.append(('in', fr))
+        box = {}
+
+        def start():
+            a = AwaitableRSocket(ep)
+            if kind == 'rs':
+                box['t'] = _a.ensure_future(a.request_stream(Payload(b'req'), limit_rate=limit_rate))
+            else:
+                box['t'] = _a.ensure_future(a.request_channel(Payload(b'req'), limit_rate=limit_rate))
+        net.act(start)
+        sent = 0
+        for _ in range(400):
+            net.flush(rng)
+            pub = net.apps['server'].pubs.get(b'req')
+            if pub is not None and pub.subscriber is not None and sent < n_elems:
+                last = sent == n_elems - 1
+                i = sent
+                net.act(lambda: pub.subscriber.on_next(Payload(b'e%d' % i), last and flag_last))
+                sent += 1
+                if last and not flag_last:
+                    net.act(lambda: pub.subscriber.on_complete())
+                continue
+            if sent >= n_elems and not any(net.t[s].pending() for s in ('client', 'server')):
+                break
+        net.flush(rng)
+        return {'events': events, 'done': box['t'].done()}
+    finally:
+        net.finish()
+
+
+def collector_oracle():
+    out = []
+    n = 0
+    for kind in ('rs', 'rc'):
+        for limit in (1, 2, 3):
+            for mult in (1, 2):
+                for flag_last in (True, False):
+                    for extra in (0, 1):
+                        n += 1
+                        case = [kind, limit * mult + extra, limit, flag_last, n % 2 == 0, n]
+                        r = run_collector(*case)
+                        peer_done = False
+                        for d, fr in r['events']:
+                            if fr.get('sid') != 1:
+                                continue
+                            if d == 'in' and fr['t'] == 'Payload' and fr.get('complete'):
+                                peer_done = True
+                            elif d == 'out' and peer_done and kind == 'rs':
+                                out.append({'what': 'emits-%s-after-the-stream-completed' % fr['t'], 'collector_case': case})
+                                break
+                            elif d == 'out' and peer_done and kind == 'rc' and fr['t'] == 'RequestN':
+                                out.append({'what': 'requests-more-after-the-peer-completed', 'collector_case': case})
+                                break
+    return out
